@@ -181,6 +181,15 @@ pub proof fn lemma_boff_ascii_tail(s: Seq<char>, k: int)
     lemma_encode_concat(a, b);
     is_ascii_chars_encode_utf8(b);
 }
+/// an ASCII prefix of k characters occupies exactly k bytes
+pub proof fn lemma_skip_ascii(s: &str, k: int)
+    requires 0 <= k <= s@.len(), is_ascii_chars(s@.subrange(0, k))
+    ensures is_char_boundary(s.spec_bytes(), k), k <= s.spec_bytes().len(), cidx(s@, k) == k, boff(s@, k) == k
+{
+    is_ascii_chars_encode_utf8(s@.subrange(0, k));
+    axiom_boff_boundary(s, k);
+    axiom_cidx_boff(s@, k);
+}
 pub broadcast group group_bounds { b_str_ends_boundary, b_cidx_end }
 /// index of the first occurrence (meaningful when there is one)
 pub open spec fn first_idx(s: Seq<char>, p: Seq<char>) -> int { choose|i: int| first_at(s, p, i) }
